@@ -487,8 +487,7 @@ def run_case(case, want_cse_cross=True):
                 except ValueError:
                     pass  # refusing a topology is always allowed
             else:
-                a, b, fs, _, _ = check_case(case, momenta, n, rng_tol, M0, adapter=adapter,
-                                            label=f"history {[o[0] for o in case['ops']]} op {k}: ")
+                a, b, fs, _, _ = check_case(case, momenta, n, rng_tol, M0, adapter=adapter)
                 n_eval += a
                 n_ill += b
                 fails += [(s_, f"history {[o[0] for o in case['ops']]} op {k}: " + w, v) for s_, w, v in fs]
